@@ -226,6 +226,24 @@ def columns_probe(ctx):
     return n, fails
 
 
+def capacity_probe(ctx):
+    """C08 capacity probe (reservation counter past 2^32): returns (evaluations, failures)"""
+    rc, out, err, _ = vlib.run([ctx["hn"], "capacity"], timeout=300)
+    fails = []
+    n = 0
+    for l in out.splitlines():
+        if l.startswith("K ok "):
+            n += 1
+        elif l.startswith("K fail "):
+            n += 1
+            p = l.split(" ", 3)
+            case, _, what = p[3].partition(" :: ")
+            fails.append({"class": p[2], "what": "capacity %s: %s" % (case, what), "case": "capacity " + case})
+    if rc != 0 or n == 0:
+        fails.append({"class": "crash", "what": "the capacity probe process died (exit status %s) after %d cases: %s" % (rc, n, stderr_gist(err)), "case": "capacity"})
+    return n, fails
+
+
 def leak_probe(ctx):
     """C11 leak probe: returns (evaluations, failures)"""
     rc, out, err, _ = vlib.run([ctx["hn"], "leak"], timeout=300)
